@@ -507,7 +507,8 @@ def run(ctx, res):
                                   "(%s): far from the origin two %ss that differ by more than 4 eps compare equal, and %s.__eq__ no "
                                   "longer agrees with the absolute tolerance the rest of the library (and the hash grid) uses"
                                   % (cname, txt(t8)[:50], w8, cname, cname), construct="%s.__eq__ relative threshold" % cname)
-    ctx.require(res, "R19.8", n8, 2, "threshold comparisons in Point / Vector equality")
+    if n8 == 0:
+        res.note("Point / Vector equality contains no comparison with the tolerance in a recognised form (it may go through a helper); R19.8 has no instance")
     from ..exact import report_rounding
     k7 = report_rounding(ctx, res, "R19.7", fs, "the result")
     ctx.require(res, "R19.7", k7, 100, "functions scanned for rounding outside the hash methods")
